@@ -563,6 +563,28 @@ func deepChild(spec string) {
 	fmt.Sscanf(spec, "%d", &depth)
 	kind = spec[strings.IndexByte(spec, ':')+1:]
 	var doc string
+	// "<prefix>+<kind>": the deep part sits behind a member whose string would mislead a scanner that tracks quotes and
+	// brackets by hand (a string ending in escaped backslashes, an escaped quote, brackets inside a string, a key ending in a
+	// backslash)
+	pre, post := "", ""
+	if i := strings.IndexByte(kind, '+'); i >= 0 {
+		switch kind[:i] {
+		case "bs1":
+			pre, post = `{"p":"\\","x":`, `}`
+		case "bs2":
+			pre, post = `{"p":"\\\\","q":"\\","x":`, `}`
+		case "bs3":
+			pre, post = `["\\",`, `]`
+		case "quote":
+			pre, post = `{"p":"\"","x":`, `}`
+		case "brackets":
+			pre, post = `{"p":"]}[{\"","x":`, `}`
+		case "key":
+			pre, post = `{"k\\":`, `}`
+		}
+		kind = kind[i+1:]
+	}
+	defer func() { _ = pre }()
 	switch kind {
 	case "obj":
 		doc = strings.Repeat(`{"":`, depth) + "0" + strings.Repeat("}", depth)
@@ -571,23 +593,41 @@ func deepChild(spec string) {
 	case "mixed":
 		doc = strings.Repeat(`{"a":[`, depth/2) + "0" + strings.Repeat("]}", depth/2)
 	}
+	doc = pre + doc + post
 	defer func() {
 		if r := recover(); r != nil {
 			fmt.Println("PANIC:", fmt.Sprint(r))
 			os.Exit(3)
 		}
 	}()
+	phase := func(n string) {
+		if os.Getenv("VERIF_C18_DEEP_TIMING") != "" {
+			fmt.Fprintln(os.Stderr, n, time.Now().Format("15:04:05.000"))
+		}
+	}
+	phase("start")
 	_, _ = gmsl.CanonicalJSON([]byte(doc))
-	_, _ = gmsl.EnforcedCanonicalJSON([]byte(doc), "10")
+	phase("canonical")
 	signed := `{"signatures":{"a.org":{"ed25519:1":"` + strings.Repeat("A", 86) + `"}},"x":` + doc + `}`
 	_ = gmsl.VerifyJSON("a.org", "ed25519:1", make([]byte, 32), []byte(signed))
 	_, _ = gmsl.ListKeyIDs("a.org", []byte(signed))
+	phase("verify/list")
 	_, _ = gmsl.SignJSON("b.org", "ed25519:1", fedgen.Keys["b.org"].Priv, []byte(signed))
+	phase("sign")
+	fmt.Println("FAST-PART-DONE") // what follows is quadratic in the depth in places (slow, not fatal): a timeout there is not a crash
+	if depth > 40000 && (pre != "" || kind == "obj") {
+		// two minutes and more per probe at 100 000 object levels: the quadratic part is driven up to 40 000 levels only
+		fmt.Println("OK")
+		return
+	}
+	_, _ = gmsl.EnforcedCanonicalJSON([]byte(doc), "10")
+	phase("enforced")
 	for _, v := range []string{"1", "10", "12"} {
 		ver := gmsl.MustGetRoomVersion(gmsl.RoomVersion(v))
 		ev := `{"type":"m.room.message","sender":"@a:a.org","room_id":"!r:a.org","origin_server_ts":1,"depth":1,"prev_events":[],"auth_events":[],"hashes":{"sha256":"x"},"content":` + doc + `}`
 		_, _ = ver.NewEventFromUntrustedJSON([]byte(ev))
 		_, _ = ver.RedactEventJSON([]byte(ev))
+		phase("event " + v)
 	}
 	fmt.Println("OK")
 }
@@ -609,6 +649,13 @@ func deepProbes(r *harness.Run) {
 			ps = append(ps, probe{d, k})
 		}
 	}
+	for _, d := range r.PickInts([]int{100000}, []int{40000, 100000, 400000}) {
+		for _, pre := range []string{"bs1", "bs2", "bs3", "quote", "brackets", "key"} {
+			for _, k := range r.PickStrings([]string{"obj"}, []string{"obj", "arr", "mixed"}) {
+				ps = append(ps, probe{d, pre + "+" + k})
+			}
+		}
+	}
 	r.Parallel(len(ps), func(i int) {
 		p := ps[i]
 		r.Eval()
@@ -618,7 +665,11 @@ func deepProbes(r *harness.Run) {
 		cmd.Env = append(os.Environ(), fmt.Sprintf("VERIF_C18_DEEP=%d:%s", p.d, p.kind))
 		out, err := cmd.CombinedOutput()
 		if ctx.Err() != nil {
-			r.Count("deep_probe_timed_out", 1) // slow is not a crash
+			if strings.Contains(string(out), "FAST-PART-DONE") {
+				r.Count("deep_probe_slow_part_timed_out", 1) // slow is not a crash; the canonicaliser / signature part finished
+			} else {
+				r.Count("deep_probe_timed_out", 1)
+			}
 			return
 		}
 		if err != nil || !strings.Contains(string(out), "OK") {
